@@ -145,8 +145,8 @@ def _worker_call(args):
     for item in chunk:
         try:
             fn(item, res)
-        except Broken:
-            raise
+        except Broken as e:
+            raise Broken(f'{e} [case {item!r}]')
         except BaseException as e:   # a crash of the harness on one case is a broken harness
             raise Broken(f'harness exception on case {item!r}: {e!r}\n{traceback.format_exc()}')
     return res
